@@ -49,6 +49,11 @@ def catalogue(tier):
     add("spd_band60", T, "sym")
     U = T + np.diag(np.full(nb - 2, 0.3), 2)
     add("unsym_band60", U, "unsym")
+    # harder for restarted Krylov methods, still nonsingular and moderately conditioned
+    ev = np.logspace(0.0, 3.0, nb)
+    add("spd_cond1e3_60", np.diag(ev) + np.diag(np.full(nb - 1, 0.2), 1) + np.diag(np.full(nb - 1, 0.2), -1), "sym")
+    sg = np.array([(-1.0) ** i for i in range(nb)]) * np.logspace(0.0, 1.0, nb)
+    add("sym_indef_60", np.diag(sg) + np.diag(np.full(nb - 1, 0.3), 1) + np.diag(np.full(nb - 1, 0.3), -1), "sym")
     # singular
     add("zero_row", [[1.0, 2.0, 0.0], [0.0, 0.0, 0.0], [3.0, 0.0, 1.0]], "struct_sing")
     add("zero_col", [[1.0, 0.0, 2.0], [3.0, 0.0, 1.0], [0.0, 0.0, 4.0]], "struct_sing")
@@ -117,6 +122,7 @@ def run_case(case):
             continue
         if sname == "LU" and cls == "struct_sing":
             bad("lu_accepted_structurally_singular", "LU factorisation of a structurally singular matrix did not raise LinearSolverError", at0)
+        held = []   # (returned array, copy at return time)
         for (rn, b) in rhs_list(n, M):
             for trans in (False, True):
                 A = M.T if trans else M
@@ -149,6 +155,8 @@ def run_case(case):
                         bad(f"solve_crash|{sname}|{type(e).__name__}", f"{type(e).__name__}: {e}", at)
                         continue
                     stats["returned"] += 1
+                    if isinstance(x, np.ndarray) and len(held) < 6:
+                        held.append((x, np.array(x, copy=True)))
                     x = np.asarray(x, dtype=float)
                     if x.shape != (n,) or not np.isfinite(x).all():
                         if cls in ("sym", "unsym") or sname != "MINRES":
@@ -168,6 +176,10 @@ def run_case(case):
                     else:
                         if cls in ("sym", "unsym") and cond <= 1e4 and r > 1e-5 * (nA * nx + nb) * 1.01:
                             bad("minres_residual", f"returned residual {r:.3e} > 1e-5(|A||x|+|b|)={1e-5 * (nA * nx + nb):.3e} (cond {cond:.1e})", at)
+        for (arr, cp) in held:
+            if not np.array_equal(arr, cp, equal_nan=True):
+                bad(f"returned_solution_overwritten|{sname}", "a solution returned earlier was changed by a later solve on the same solver object", at0)
+                break
     # the same matrix OBJECT with its data updated in place: a new solver request must see the new values
     if cls in ("sym", "unsym") and cond <= 1e4:
         for sname in ("LU", "GMRES") + (("MINRES",) if cls == "sym" else ()):
